@@ -120,10 +120,14 @@ void bn_mxp_sim_few(bn_t c, const bn_t *a, const bn_t *b, const bn_t m,
         for (size_t i = 0; i < n; i++) {
             if (!bn_is_zero(b[i])) { // Otherwise will never need P[i]
 				const uint_t star = 1 << i;
+				/* A negative exponent stands for a power of the inverse. */
+				if (bn_sign(b[i]) == RLC_NEG) {
+					bn_mod_inv(t[star], a[i], m);
+				} else {
+					bn_copy(t[star], a[i]);
+				}
 #if BN_MOD == MONTY
-				bn_mod_monty_conv(t[star], a[i], m);
-#else
-				bn_copy(t[star], a[i]);
+				bn_mod_monty_conv(t[star], t[star], m);
 #endif
                 for(size_t j = star + 1; j < (star << 1); j++) {
                     bn_mul(t[j], t[star], t[j - star]);
